@@ -277,6 +277,44 @@ func quoteList(xs []string) string {
 
 var sections []func()
 
+// constants of the flush protocol: `disallowRaw := rs.flushCount%10 == 9` in row_store.go
+func protocolConstants() {
+	out.WriteString("\n(* ---- protocol constants ---- *)\n")
+	every, rem := "", ""
+	ast.Inspect(parse("row_store.go"), func(n ast.Node) bool {
+		as, ok := n.(*ast.AssignStmt)
+		if !ok || len(as.Lhs) != 1 || len(as.Rhs) != 1 {
+			return true
+		}
+		id, ok := as.Lhs[0].(*ast.Ident)
+		if !ok || id.Name != "disallowRaw" {
+			return true
+		}
+		cmp, ok := as.Rhs[0].(*ast.BinaryExpr)
+		if !ok || cmp.Op != token.EQL {
+			return true
+		}
+		mod, ok := cmp.X.(*ast.BinaryExpr)
+		if !ok || mod.Op != token.REM {
+			return true
+		}
+		if l, ok := mod.Y.(*ast.BasicLit); ok {
+			every = l.Value
+		}
+		if l, ok := cmp.Y.(*ast.BasicLit); ok {
+			rem = l.Value
+		}
+		return true
+	})
+	if every == "" || rem == "" {
+		unsupported = append(unsupported, "gen_truncate_every")
+		every, rem = "0", "0"
+	}
+	fmt.Fprintf(&out, "Definition gen_truncate_every : Z := %s.\nDefinition gen_truncate_rem : Z := %s.\n", every, rem)
+}
+
+func init() { sections = append(sections, protocolConstants) }
+
 func main() {
 	flag.Parse()
 	out.WriteString("(* GENERATED by /verif/harness/cmd/srcfacts from /repo on every run. Do not edit. *)\n")
